@@ -34,20 +34,28 @@ def gen_graph(rng, nfiles):
     imported = {t for f in files for (k, t) in f["edges"] if k.startswith("import")}
     for i, f in enumerate(files):
         f["set"] = allow and i not in imported
-    return {"files": files, "allow": allow}
+    # files live in different directories: a path in an `import` / `mod` statement is relative to the directory of the
+    # file that contains the statement
+    dirs = [""] + [rng.choice(["", "", "sub", "sub/deep", "other"]) for _ in range(nfiles - 1)]
+    return {"files": files, "allow": allow, "dirs": dirs}
 
 
 def fname(i):
     return "justfile" if i == 0 else "f%d.just" % i
 
 
+def fpath(g, i):
+    return os.path.join(g.get("dirs", [""] * len(g["files"]))[i], fname(i))
+
+
 def file_text(g, i):
     f = g["files"][i]
+    here = g.get("dirs", [""] * len(g["files"]))[i]
     t = ""
     if f["set"]:
         t += "set allow-duplicate-recipes\nset allow-duplicate-variables\n"
     for k, (kind, tgt) in enumerate(f["edges"]):
-        path = "missing.just" if tgt == "missing" else fname(tgt)
+        path = "missing.just" if tgt == "missing" else os.path.relpath(fpath(g, tgt), here or ".")
         # the same file under three spellings: a cycle is a cycle however the path is written
         path = ["%s", "./%s", "pad/../%s"][(i + k + (0 if tgt == "missing" else tgt)) % 3] % path
         if kind.startswith("import"):
@@ -172,8 +180,8 @@ def model_tree(t):
 def run_case(g):
     with C.scratch("c15") as d:
         for i in range(len(g["files"])):
-            os.makedirs(os.path.join(d, "pad"), exist_ok=True)
-            open(os.path.join(d, fname(i)), "w").write(file_text(g, i))
+            os.makedirs(os.path.join(d, os.path.dirname(fpath(g, i)), "pad"), exist_ok=True)
+            open(os.path.join(d, fpath(g, i)), "w").write(file_text(g, i))
         logp = os.path.join(d, "vsh.log")
         env = dict(C.BASE_ENV)
         env.update({"HOME": d, "TMPDIR": d, "VSH_LOG": logp})
@@ -263,13 +271,14 @@ def run(report):
     results = C.pmap(run_case, graphs)
     model = drv.pbatch([{"op": "imports", "files": model_files(g)} for g in graphs], chunk=1000)
     stats = {"graphs": n, "accepted": 0, "errors": {}, "with_cycle": 0, "diamonds": 0, "path_form_pairs": 0, "override_checked": 0,
-             "module_location_cases": 0}
+             "module_location_cases": 0, "files_outside_root_directory": 0}
     distinct = set()
     samples = []
     for g, r, m in zip(graphs, results, model):
         if "fatal" in m:
             raise C.BuildError("model driver: " + m["fatal"])
-        files = {fname(i): file_text(g, i) for i in range(len(g["files"]))}
+        files = {fpath(g, i): file_text(g, i) for i in range(len(g["files"]))}
+        stats["files_outside_root_directory"] += sum(1 for x in g.get("dirs", []) if x)
         distinct.add(json.dumps(files, sort_keys=True))
         replay = {"files": files, "observed": r}
         if r.get("timeout"):
@@ -397,7 +406,7 @@ def run(report):
     report.coverage.update({
         "evaluations": n + stats["module_location_cases"],
         "distinct_nontrivial": len(distinct),
-        "rule": "random file graphs with %s files: per ordered pair an edge in {none, import, import?, mod, mod?} (self and mutual cycles, diamonds), edges to a missing file, a shared recipe `r` and variable `v` in any file, a unique recipe per file, allow-duplicate settings; the merged module tree from the JSON dump (winning file per name via body marker / value), error class, 10 s timeout, `a::r` vs `a r`; plus every module-file location alone and in pairs; distinct = distinct file sets" % ("2-3" if tier == "quick" else "2-5"),
+        "rule": "random file graphs with %s files: per ordered pair an edge in {none, import, import?, mod, mod?} (self and mutual cycles, diamonds), edges to a missing file, a shared recipe `r` and variable `v` in any file, a unique recipe per file, allow-duplicate settings, files spread over directories (paths relative to the containing file, three spellings); the merged module tree from the JSON dump (winning file per name via body marker / value), error class, 10 s timeout, `a::r` vs `a r`; plus every module-file location alone and in pairs; distinct = distinct file sets" % ("2-3" if tier == "quick" else "2-5"),
         "samples": samples,
         "traces_validated_against_impl": n,
         "stats": stats,
@@ -416,6 +425,7 @@ def replay(report, path):
     if "files" in rp:
         with C.scratch("c15r") as d:
             for f, t in rp["files"].items():
+                os.makedirs(os.path.join(d, os.path.dirname(f), "pad"), exist_ok=True)
                 open(os.path.join(d, f), "w").write(t)
             p = subprocess.run([C.JUST, "--dump", "--dump-format", "json"], cwd=d, env=dict(C.BASE_ENV, HOME=d), stdout=subprocess.PIPE,
                                stderr=subprocess.PIPE, timeout=15)
